@@ -86,6 +86,9 @@ class FsSeam:
         self.track_reads = False
         self._mk = 0
         # transient faults of read-side calls (stat, lstat): [{"kind": "stat", "nth": 0, "errno": "EIO"}], one-shot each
+        # buggify: the kernel may copy fewer bytes than asked for; cap the bytes of every copy_file_range call
+        self.cfr_cap: int | None = None
+        self.cfr_capped_calls = 0
         self.read_faults: list[dict] = []
         self.read_kind_counts: dict[str, int] = {}
 
@@ -406,6 +409,11 @@ class OsProxy:
             if f["mode"] == "short" and count > 1:
                 return _real_os.copy_file_range(src, dst, max(1, count // 2), offset_src=offset_src, offset_dst=offset_dst)
             raise FsSeam.oserror(f["errno"])
+        cap = self._seam.cfr_cap
+        if cap is not None and count > cap:
+            # at least 1/48 of what was asked for, so that a large tensor still needs only some hundred calls
+            count = max(cap, -(-count // 48))
+            self._seam.cfr_capped_calls += 1
         return _real_os.copy_file_range(src, dst, count, offset_src=offset_src, offset_dst=offset_dst)
 
 
